@@ -14,6 +14,22 @@ type loopRun struct {
 	variant *Term // value of the decreases expression at the head of the iteration
 }
 
+// bindRangeIdx binds the ghost name rangeIdx (number of elements already processed by a range-over-slice loop).
+func (x *fnExec) bindRangeIdx(vars map[types.Object]Val, cl *Clause, li *loopInfo, fr *frame) {
+	for _, pv := range cl.litParams() {
+		if pv == nil || pv.Name() != "rangeIdx" {
+			continue
+		}
+		for _, p := range x.headerPhis(li) {
+			if isRangeIndexPhi(p) {
+				v := fr.env[p]
+				vars[pv] = scalar(BVBin("bvadd", v.T, BVU(1, 64)), pv.Type())
+				return
+			}
+		}
+	}
+}
+
 func (x *fnExec) loopSpec(fr *frame, li *loopInfo) *LoopSpec {
 	if fr.C == nil || fr.inline {
 		return nil
@@ -57,6 +73,28 @@ func (x *fnExec) shadowFrame(fr *frame, li *loopInfo, phiVals map[*ssa.Phi]Val, 
 	return sf
 }
 
+// isRangeIndexPhi recognises the index phi go/ssa emits for "for i := range slice": phi [-1, phi+1].
+func isRangeIndexPhi(p *ssa.Phi) bool {
+	if p.Comment != "rangeindex" || len(p.Edges) < 2 {
+		return false
+	}
+	c, ok := p.Edges[0].(*ssa.Const)
+	if !ok || c.Value == nil || c.Value.ExactString() != "-1" {
+		return false
+	}
+	for _, e := range p.Edges[1:] {
+		b, ok := e.(*ssa.BinOp)
+		if !ok || b.Op.String() != "+" || b.X != ssa.Value(p) {
+			return false
+		}
+		one, ok := b.Y.(*ssa.Const)
+		if !ok || one.Value == nil || one.Value.ExactString() != "1" {
+			return false
+		}
+	}
+	return true
+}
+
 func (x *fnExec) headerPhis(li *loopInfo) []*ssa.Phi {
 	var out []*ssa.Phi
 	for _, in := range li.header.Instrs {
@@ -85,6 +123,7 @@ func (x *fnExec) loopHeader(fr *frame, li *loopInfo, cur *State, edges []inEdge)
 				continue
 			}
 			env := &specEnv{x: x, vars: copyVars(fr.vars), cur: cur, old: fr.entry, info: cl.Info, fr: sf, loop: li}
+			x.bindRangeIdx(env.vars, cl, li, sf)
 			goal, hyp, sk := env.clauseGoal(cl)
 			o := x.obligation(cur, name(cl), "inv", "loop entry", clauseTags(fr.C, cl), goal, hyp, cl.Src)
 			o.skolems = sk
@@ -107,6 +146,10 @@ func (x *fnExec) loopHeader(fr *frame, li *loopInfo, cur *State, edges []inEdge)
 		x.constrainFresh(cur, v)
 		fr.env[p] = v
 		phiVals[p] = v
+		if isRangeIndexPhi(p) {
+			// built-in invariant of the range-over-slice lowering: index starts at -1 and is incremented below len
+			x.assume(cur, And(BVCmp("bvsge", v.T, BVI(-1, 64)), BVCmp("bvslt", v.T, BVU(1<<62, 64))))
+		}
 	}
 	// 3. assume invariants
 	if spec != nil {
@@ -116,6 +159,7 @@ func (x *fnExec) loopHeader(fr *frame, li *loopInfo, cur *State, edges []inEdge)
 				continue
 			}
 			env := &specEnv{x: x, vars: copyVars(fr.vars), cur: cur, old: fr.entry, info: cl.Info, fr: sf, loop: li}
+			x.bindRangeIdx(env.vars, cl, li, sf)
 			env.assumeClause(cl, cur)
 		}
 		if spec.Decreases != nil && spec.Decreases.Info != nil {
@@ -147,6 +191,7 @@ func (x *fnExec) loopBackEdge(fr *frame, li *loopInfo, from *ssa.BasicBlock, con
 			continue
 		}
 		env := &specEnv{x: x, vars: copyVars(fr.vars), cur: s2, old: fr.entry, info: cl.Info, fr: sf, loop: li}
+		x.bindRangeIdx(env.vars, cl, li, sf)
 		goal, hyp, sk := env.clauseGoal(cl)
 		o := x.obligation(s2, fmt.Sprintf("%s:loop %d:inv#%s", funcKey(x.top), li.ordinal, cl.Label), "inv", "back edge from block "+fmt.Sprint(from.Index), clauseTags(fr.C, cl), goal, hyp, cl.Src)
 		o.skolems = sk
